@@ -111,6 +111,72 @@ theorem WfS.live_of_idx {a : Sk} {hole} (h : WfS a hole) {k : Nat} (hk : k ∈ a
   rw [hpe.1] at hq
   exact ⟨e, hq⟩
 
+/-- erase `k` from the list of connection `fd?` (if any) -/
+def cfqErase (l : List (Nat × List Nat)) (fd? : Option Nat) (k : Nat) : List (Nat × List Nat) :=
+  match fd? with
+  | some fd => l.map fun c => if c.1 == fd then (c.1, c.2.erase k) else c
+  | none => l
+def cfuqErase (l : List (Nat × Bool × List Nat)) (fd? : Option Nat) (k : Nat) : List (Nat × Bool × List Nat) :=
+  match fd? with
+  | some fd => l.map fun c => if c.1 == fd then (c.1, c.2.1, c.2.2.erase k) else c
+  | none => l
+
+theorem mem_cfqErase {l : List (Nat × List Nat)} {fd? : Option Nat} {k : Nat} {c : Nat × List Nat} :
+    c ∈ cfqErase l fd? k ↔
+      (c ∈ l ∧ some c.1 ≠ fd?) ∨ (some c.1 = fd? ∧ ∃ q, (c.1, q) ∈ l ∧ c.2 = q.erase k) := by
+  cases fd? with
+  | none => simp [cfqErase]
+  | some fd =>
+    simp only [cfqErase, List.mem_map, beq_iff_eq, Option.some.injEq]
+    constructor
+    · rintro ⟨q, hq, rfl⟩
+      by_cases h : q.1 = fd
+      · right; simp only [h, ↓reduceIte, true_and]; exact ⟨q.2, by rw [← h]; exact hq, rfl⟩
+      · left; simp [h, hq]
+    · rintro (⟨h1, h2⟩ | ⟨h1, q, hq, h2⟩)
+      · exact ⟨c, h1, by rw [if_neg (fun hh => h2 (congrArg some hh))]⟩
+      · refine ⟨(c.1, q), hq, ?_⟩
+        simp only [h1, ↓reduceIte]; rw [← h2, ← h1]
+
+theorem mem_cfuqErase {l : List (Nat × Bool × List Nat)} {fd? : Option Nat} {k : Nat} {c : Nat × Bool × List Nat} :
+    c ∈ cfuqErase l fd? k ↔
+      (c ∈ l ∧ some c.1 ≠ fd?) ∨ (some c.1 = fd? ∧ ∃ q, (c.1, c.2.1, q) ∈ l ∧ c.2.2 = q.erase k) := by
+  cases fd? with
+  | none => simp [cfuqErase]
+  | some fd =>
+    simp only [cfuqErase, List.mem_map, beq_iff_eq, Option.some.injEq]
+    constructor
+    · rintro ⟨q, hq, rfl⟩
+      by_cases h : q.1 = fd
+      · right; simp only [h, ↓reduceIte, true_and]; exact ⟨q.2.2, by rw [← h]; exact hq, rfl⟩
+      · left; simp [h, hq]
+    · rintro (⟨h1, h2⟩ | ⟨h1, q, hq, h2⟩)
+      · exact ⟨c, h1, by rw [if_neg (fun hh => h2 (congrArg some hh))]⟩
+      · refine ⟨(c.1, c.2.1, q), hq, ?_⟩
+        simp only [h1, ↓reduceIte]; rw [← h2, ← h1]
+
+theorem cfqErase_fst (l : List (Nat × List Nat)) (fd? : Option Nat) (k : Nat) :
+    (cfqErase l fd? k).map (·.1) = l.map (·.1) := by
+  cases fd? with
+  | none => rfl
+  | some fd =>
+    simp only [cfqErase]
+    rw [List.map_map]; apply List.map_congr_left; intro x _; simp only [Function.comp]; split <;> rfl
+
+theorem mem_map_ifkey {β} {l : List (Nat × β)} {k : Nat} {v : β} {p : Nat × β} :
+    p ∈ (l.map fun p => if p.1 == k then (p.1, v) else p) ↔
+      (p ∈ l ∧ p.1 ≠ k) ∨ (p.2 = v ∧ p.1 = k ∧ ∃ w, (k, w) ∈ l) := by
+  simp only [List.mem_map, beq_iff_eq]
+  constructor
+  · rintro ⟨q, hq, rfl⟩
+    by_cases h : q.1 = k
+    · right; simp only [h, ↓reduceIte, true_and]; exact ⟨q.2, by rw [← h]; exact hq⟩
+    · left; simp [h, hq]
+  · rintro (⟨h1, h2⟩ | ⟨h1, h2, w, hw⟩)
+    · exact ⟨p, h1, by simp [h2]⟩
+    · refine ⟨(k, w), hw, ?_⟩
+      simp only [↓reduceIte]; rw [← h1, ← h2]
+
 section spec
 variable {a : Sk} {k : Nat} {e : QSk}
 
@@ -126,24 +192,106 @@ theorem rfc_bt (hq : a.q? k = some e) : (a.removeFromConn k).byTimeout = a.byTim
 theorem rfc_po (hq : a.q? k = some e) : (a.removeFromConn k).pendingOrder = a.pendingOrder.erase k := by
   rw [Sk.removeFromConn_eq a k e hq]
 
-theorem rfc_cFQ (hq : a.q? k = some e) :
-    (a.removeFromConn k).cFQ = match e.conn with
-      | some fd => a.cFQ.map fun c => if c.1 == fd then (c.1, c.2.erase k) else c
-      | none => a.cFQ := by
+theorem rfc_cFQ (hq : a.q? k = some e) : (a.removeFromConn k).cFQ = cfqErase a.cFQ e.conn k := by
   rw [Sk.removeFromConn_eq a k e hq]
   cases e.conn with
   | none => rfl
   | some fd => exact cFQ_modC_queries a fd (·.erase k)
 
-theorem rfc_cFUQ (hq : a.q? k = some e) :
-    (a.removeFromConn k).cFUQ = match e.conn with
-      | some fd => a.cFUQ.map fun c => if c.1 == fd then (c.1, c.2.1, c.2.2.erase k) else c
-      | none => a.cFUQ := by
+theorem rfc_cFUQ (hq : a.q? k = some e) : (a.removeFromConn k).cFUQ = cfuqErase a.cFUQ e.conn k := by
   rw [Sk.removeFromConn_eq a k e hq]
   cases e.conn with
   | none => rfl
   | some fd => exact cFUQ_modC_queries a fd (·.erase k)
 
 end spec
+
+/-! ### `removeFromConn` re-establishes the by-timeout and connection groups (also from the transient state) -/
+
+theorem wfT_rfc {a : Sk} {hole} {k : Nat} {e : QSk} (h : WfS a hole) (hq : a.q? k = some e) :
+    WfTP (a.removeFromConn k).qKC (a.removeFromConn k).idx (a.removeFromConn k).byTimeout
+      (a.removeFromConn k).pendingOrder := by
+  rw [rfc_qKC hq, rfc_bt hq, rfc_po hq, rfc_idx]
+  have ht := h.t
+  constructor
+  · exact ht.btNodup.erase k
+  · intro k' hk'
+    have := (List.Nodup.mem_erase_iff ht.btNodup).mp hk'
+    obtain ⟨h1, fd, h2⟩ := ht.btOk k' this.2
+    exact ⟨h1, fd, mem_map_ifkey.mpr (Or.inl ⟨h2, this.1⟩)⟩
+  · exact ht.poNodup.erase k
+  · intro k' hk'
+    have := (List.Nodup.mem_erase_iff ht.poNodup).mp hk'
+    obtain ⟨h1, ⟨fd, h2⟩, h3⟩ := ht.poOk k' this.2
+    exact ⟨h1, ⟨fd, mem_map_ifkey.mpr (Or.inl ⟨h2, this.1⟩)⟩, fun hm => h3 (List.mem_of_mem_erase hm)⟩
+
+/-- after `removeFromConn k` no connection lists `k` -/
+theorem rfc_not_listed {a : Sk} {hole} {k : Nat} {e : QSk} (h : WfS a hole) (hq : a.q? k = some e) :
+    ∀ c ∈ (a.removeFromConn k).cFQ, k ∉ c.2 := by
+  rw [rfc_cFQ hq]
+  have hc := h.c
+  have hkc := (Sk.q?_mem_proj hq).1
+  intro c hcm hk
+  rcases mem_cfqErase.mp hcm with ⟨h1, h2⟩ | ⟨h1, q, hq', h2⟩
+  · have := (hc.cq c h1 k hk).2
+    exact h2 (Sk.qKC_unique h.q.nodup this hkc)
+  · rw [h2] at hk
+    exact (List.Nodup.mem_erase_iff (hc.qNodup _ hq')).mp hk |>.1 rfl
+
+theorem wfC_rfc {a : Sk} {hole} {k : Nat} {e : QSk} (h : WfS a hole) (hh : hole = none ∨ hole = some k)
+    (hq : a.q? k = some e) :
+    WfCP (a.removeFromConn k).qKC (a.removeFromConn k).idx (a.removeFromConn k).cFQ
+      (a.removeFromConn k).nextFd (a.removeFromConn k).socks none := by
+  have hnl := rfc_not_listed h hq
+  rw [rfc_cFQ hq] at hnl ⊢
+  rw [rfc_qKC hq, rfc_idx, rfc_nextFd, rfc_socks]
+  have hc := h.c
+  -- every new entry comes from an old one with the same descriptor and a sub-list
+  have key : ∀ c' ∈ cfqErase a.cFQ e.conn k, ∃ c ∈ a.cFQ, c'.1 = c.1 ∧ (∀ x ∈ c'.2, x ∈ c.2) ∧ c'.2.Nodup := by
+    intro c' hc'
+    rcases mem_cfqErase.mp hc' with ⟨h1, _⟩ | ⟨_, q, hq', h2⟩
+    · exact ⟨c', h1, rfl, fun _ hx => hx, hc.qNodup _ h1⟩
+    · exact ⟨(c'.1, q), hq', rfl, fun x hx => by rw [h2] at hx; exact List.mem_of_mem_erase hx,
+        by rw [h2]; exact (hc.qNodup _ hq').erase k⟩
+  -- every old entry has an image that keeps all keys but `k`
+  have img : ∀ c ∈ a.cFQ, ∃ c' ∈ cfqErase a.cFQ e.conn k, c'.1 = c.1 ∧ (∀ x ∈ c.2, x ≠ k → x ∈ c'.2) := by
+    intro c hcm
+    by_cases hcf : some c.1 = e.conn
+    · exact ⟨(c.1, c.2.erase k), mem_cfqErase.mpr (Or.inr ⟨hcf, c.2, hcm, rfl⟩), rfl,
+        fun x hx hne => (List.mem_erase_of_ne hne).mpr hx⟩
+    · exact ⟨c, mem_cfqErase.mpr (Or.inl ⟨hcm, hcf⟩), rfl, fun _ hx _ => hx⟩
+  constructor
+  · rw [cfqErase_fst]; exact hc.nodup
+  · intro c' hc'; obtain ⟨c, hcm, h1, _⟩ := key c' hc'; rw [h1]; exact hc.lt c hcm
+  · intro c' hc'; obtain ⟨c, hcm, h1, _⟩ := key c' hc'; rw [h1]; exact hc.sock c hcm
+  · intro c' hc'; obtain ⟨c, hcm, h1, _, h3⟩ := key c' hc'; exact h3
+  · intro c' hc' x hx
+    obtain ⟨c, hcm, h1, h2, _⟩ := key c' hc'
+    obtain ⟨hi, hm⟩ := hc.cq c hcm x (h2 x hx)
+    have hne : x ≠ k := fun hxk => hnl c' hc' (hxk ▸ hx)
+    exact ⟨hi, mem_map_ifkey.mpr (Or.inl ⟨by rw [h1]; exact hm, hne⟩)⟩
+  · intro p' hp' fd' hfd'
+    rcases mem_map_ifkey.mp hp' with ⟨h1, h2⟩ | ⟨h1, _⟩
+    · obtain ⟨c, hcm, hcfd, hor⟩ := hc.qc p' h1 fd' hfd'
+      have hin : p'.1 ∈ c.2 := by
+        rcases hor with hin | hhole
+        · exact hin
+        · rcases hh with hh | hh
+          · rw [hh] at hhole; cases hhole
+          · rw [hh] at hhole; cases hhole; exact absurd rfl h2
+      obtain ⟨c', hc', e1, e2⟩ := img c hcm
+      exact ⟨c', hc', by rw [e1, hcfd], Or.inl (e2 _ hin h2)⟩
+    · rw [h1] at hfd'; cases hfd'
+
+/-- `removeFromConn` of a live query re-establishes the invariant -/
+theorem wf_rfc {a : Sk} {hole} {k : Nat} {e : QSk} (h : WfS a hole) (hh : hole = none ∨ hole = some k)
+    (hq : a.q? k = some e) : WfS (a.removeFromConn k) none where
+  q := by simpa using h.q
+  i := by simpa using h.i
+  t := wfT_rfc h hq
+  c := wfC_rfc h hh hq
+  s := by simpa using h.s
+  k := by simpa using h.k
+  tok := by simpa using h.tok
 
 end Cares.Chan
